@@ -9,8 +9,10 @@ mod proto;
 mod refdev;
 mod rng;
 mod runner;
+mod wake;
 
 mod c05_notify;
+mod c05_drivers;
 mod c06_layout;
 mod c07_hostile;
 mod cq_queue;
@@ -124,6 +126,15 @@ fn main() {
                     std::process::exit(2)
                 }
             };
+            // failures labelled for another property (streams are shared between checks) are that
+            // check's business
+            let mut cases = cases;
+            for c in cases.iter_mut() {
+                c.oracle_failures.retain(|f| {
+                    let b = f.as_bytes();
+                    !(b.len() > 5 && b[0] == b'[' && b[1] == b'C' && b[4] == b']' && &f[1..4] != prop.as_str())
+                });
+            }
             let mut res = RunResult {
                 prop: prop.clone(),
                 tier: ctx.tier.name().into(),
